@@ -55,6 +55,15 @@ enum ConnCmd {
     Kill,
     /// GOAWAY, finish in-flight streams, then close
     Graceful,
+    /// stop driving the connection altogether (nothing read, nothing written), socket kept open
+    Freeze,
+}
+
+/// Hold everything a stream owns, silently, until the collector shuts down.
+async fn hold_forever(inner: &Inner) {
+    while !inner.is_shutdown() {
+        tokio::time::sleep(Duration::from_millis(20)).await;
+    }
 }
 
 impl GrpcServer {
@@ -113,18 +122,30 @@ async fn serve_conn(inner: Arc<Inner>, sock: Io, conn_id: u64) {
         return;
     };
     let (cmd_tx, mut cmd_rx) = mpsc::unbounded_channel::<ConnCmd>();
+    // Some(keep_reading) once a `WedgeConnection` decision hit this connection
+    let wedged: Arc<std::sync::Mutex<Option<bool>>> = Arc::new(std::sync::Mutex::new(None));
     loop {
         tokio::select! {
             cmd = cmd_rx.recv() => match cmd {
                 Some(ConnCmd::Kill) => return,
                 Some(ConnCmd::Graceful) => conn.graceful_shutdown(),
+                Some(ConnCmd::Freeze) => {
+                    // `conn` (and with it the socket) stays alive, undriven, until the runtime goes away
+                    std::future::pending::<()>().await;
+                }
                 None => return,
             },
             next = conn.accept() => match next {
                 Some(Ok((req, respond))) => {
-                    tokio::spawn(serve_stream(inner.clone(), conn_id, req, respond, cmd_tx.clone()));
+                    tokio::spawn(serve_stream(inner.clone(), conn_id, req, respond, cmd_tx.clone(), wedged.clone()));
                 }
-                _ => return,
+                _ => {
+                    if wedged.lock().unwrap().is_some() {
+                        // a wedged connection is never closed from this side, whatever the peer did
+                        std::future::pending::<()>().await;
+                    }
+                    return;
+                }
             }
         }
     }
@@ -195,6 +216,7 @@ async fn serve_stream(
     req: http::Request<h2::RecvStream>,
     mut respond: h2::server::SendResponse<Bytes>,
     cmd: mpsc::UnboundedSender<ConnCmd>,
+    wedged: Arc<std::sync::Mutex<Option<bool>>>,
 ) {
     let path = req.uri().path().to_string();
     if inner.is_foreign(&path) {
@@ -216,15 +238,35 @@ async fn serve_stream(
         Encoding::Unknown
     };
     let grpc_encoding = get("grpc-encoding").unwrap_or_default();
-    let (idx, decision, _signal) = inner.begin(Head {
-        conn: conn_id,
-        transport: Transport::Grpc,
-        path,
-        content_type,
-        encoding,
-        gzip: grpc_encoding.eq_ignore_ascii_case("gzip"),
-        headers,
-    });
+    let inherited = wedged.lock().unwrap().map(|keep_reading| Decision::WedgeConnection { keep_reading });
+    let (idx, decision, _signal) = inner.begin_with(
+        Head {
+            conn: conn_id,
+            transport: Transport::Grpc,
+            path,
+            content_type,
+            encoding,
+            gzip: grpc_encoding.eq_ignore_ascii_case("gzip"),
+            headers,
+        },
+        inherited,
+    );
+
+    if let Decision::WedgeConnection { keep_reading } = decision {
+        *wedged.lock().unwrap() = Some(keep_reading);
+        // no answer will ever come: say so in the log at once
+        inner.update(idx, |r| {
+            r.outcome = Outcome::Dropped;
+            r.phase = Phase::Stalled;
+        });
+        if !keep_reading {
+            let _ = cmd.send(ConnCmd::Freeze);
+            // the handles are kept so that h2 has no reason to reset the stream
+            hold_forever(&inner).await;
+            drop((req, respond));
+            return;
+        }
+    }
 
     if decision == Decision::CloseBeforeRead {
         inner.finish(idx, Outcome::Dropped);
@@ -272,6 +314,17 @@ async fn serve_stream(
     let compressed_flag = wire.first().copied() == Some(1);
     inner.body(idx, wire_len, payload);
     inner.update(idx, |r| r.gzip = compressed_flag);
+
+    if let Decision::WedgeConnection { .. } = decision {
+        // `inner.body` reset the phase; the request stays unanswered for good
+        inner.update(idx, |r| {
+            r.outcome = Outcome::Dropped;
+            r.phase = Phase::Stalled;
+        });
+        hold_forever(&inner).await;
+        drop((body, respond));
+        return;
+    }
 
     // ---- act
     // The outcome is logged BEFORE the response is handed to h2 (see http1.rs): a check reading the log
@@ -366,7 +419,7 @@ async fn serve_stream(
             }
             Outcome::Dropped
         }
-        Decision::CloseBeforeRead => unreachable!(),
+        Decision::CloseBeforeRead | Decision::WedgeConnection { .. } => unreachable!(),
     };
     inner.finish(idx, outcome);
 }
